@@ -1368,12 +1368,7 @@ pub fn from_multiple_with_options<T: DeserializeOwned>(
     input: &str,
     options: Options,
 ) -> Result<Vec<T>, Error> {
-    // Normalize: ignore a single leading UTF-8 BOM if present.
-    let input = if let Some(rest) = input.strip_prefix('\u{FEFF}') {
-        rest
-    } else {
-        input
-    };
+    // A single leading UTF-8 BOM is ignored by `LiveEvents::from_str`.
     let with_snippet = options.with_snippet;
     let crop_radius = options.crop_radius;
 
